@@ -48,6 +48,7 @@ import (
 	"github.com/nuts-foundation/nuts-node/jsonld"
 	"github.com/nuts-foundation/nuts-node/vcr/pe"
 	"github.com/sirupsen/logrus"
+	"github.com/spf13/cobra"
 	"github.com/spf13/pflag"
 )
 
@@ -90,6 +91,15 @@ type xOp struct {
 	FileVal   *string     `json:"fileval,omitempty"`   // the value as written into nuts.yaml (YAML text)
 	Env       [][2]string `json:"env,omitempty"`       // environment variables set in this order (name, raw value)
 	Configure bool        `json:"configure,omitempty"` // strictmode: continue with System.Configure
+	// sys (round 3): the storage.sql.connection STRING ($DIR = the node's data directory; "" = not configured; overrides SQL), and
+	// what happened on this data directory BEFORE: "lenient" = the node ran once with strict mode off and no connection
+	// string (pilot / quick-start), which leaves <datadir>/sqlite.db behind
+	SQLConn *string `json:"sqlconn,omitempty"`
+	Prior   string  `json:"prior,omitempty"`
+	// cflag (round 3): core.NewClientConfigForCommand on a command whose flag set is Names (ALL flags, in VisitAll order:
+	// core.ClientConfigFlags plus the command's own), with Args set on the command line and NUTS_TOKEN = EnvToken
+	Names    []string `json:"names,omitempty"`
+	EnvToken *string  `json:"envtoken,omitempty"`
 	// cap: the server answering last sends a body of this many bytes (Content-Length, or chunked)
 	Body    *int `json:"body,omitempty"`
 	Chunked bool `json:"chunked,omitempty"`
@@ -145,6 +155,8 @@ func xStartErr(err error) string {
 		class = "cli-secret"
 	case strings.Contains(m, "storage.sql.connection must be set in strictmode"):
 		class = "sql-implicit"
+	case strings.Contains(m, "unsupported SQL database"), strings.Contains(m, "unknown dialect"), strings.Contains(m, "unsupported driver"), strings.Contains(m, "unknown driver"):
+		class = "sql-unsupported"
 	case strings.Contains(m, "backend must be explicitly set in strict mode"):
 		class = "crypto-implicit"
 	case strings.Contains(m, "invalid config for crypto.storage"):
@@ -209,7 +221,11 @@ func xConfigYAML(op xOp, dir string) string {
 	if op.Crypto != "" {
 		fmt.Fprintf(&sb, "crypto:\n  storage: %s\n", op.Crypto)
 	}
-	if op.SQL {
+	if op.SQLConn != nil {
+		if *op.SQLConn != "" {
+			fmt.Fprintf(&sb, "storage:\n  sql:\n    connection: %q\n", strings.ReplaceAll(*op.SQLConn, "$DIR", dir))
+		}
+	} else if op.SQL {
 		fmt.Fprintf(&sb, "storage:\n  sql:\n    connection: \"sqlite:file:%s/explicit.sqlite?_pragma=foreign_keys(1)&journal_mode(WAL)\"\n", dir)
 	}
 	vals := "employeeid"
@@ -541,6 +557,8 @@ func xExec(t *testing.T, op xOp, sock **xSock) (line string) {
 		return "flags other:" + err.Error()
 	case "src":
 		return xSrc(op, sock)
+	case "cflag":
+		return xClientFlags(op)
 	case "load", "sys":
 		dir, err := os.MkdirTemp(os.Getenv("VERIF_OUT"), "node")
 		if err != nil {
@@ -558,6 +576,22 @@ func xExec(t *testing.T, op xOp, sock **xSock) (line string) {
 		client.StrictMode = false
 		defer func() { client.StrictMode = oldStrict }()
 		early := client.New(5 * time.Second)
+		if op.Prior == "lenient" {
+			// the history the data directory has: one complete lenient start-up without a connection string
+			prior := xOp{Op: "sys", Strict: false, URL: "https://nuts.nl", TLS: true, Methods: []string{"web", "nuts"}, Crypto: "fs", Irma: "pbdf"}
+			psys, perr := xLoad(prior, dir)
+			if perr == nil {
+				perr = psys.Configure()
+			}
+			xShutdown(psys)
+			client.StrictMode = false
+			if perr != nil {
+				return op.Op + " prior-run-failed:" + xStartErr(perr)
+			}
+			if _, serr := os.Stat(filepath.Join(dir, "sqlite.db")); serr != nil {
+				return op.Op + " prior-run-left-no-sqlite.db"
+			}
+		}
 		system, err := xLoad(op, dir)
 		if err != nil {
 			return op.Op + " refuse:" + xStartErr(err)
@@ -785,6 +819,103 @@ var xHosts = []string{"localhost.", "node.local.", "example.com.", "www.example.
 	"[::1]:443", "user@nuts.nl", "user:pw@nuts.nl", "user@localhost", "nuts.nl@localhost", "nuts.nl%2F", "nuts.nl%00", "é.nl", "日本.jp", "nuts.nl\\", "nuts nl", "", ".", "..", ".nl", "nl.", "example.com.", "a.example.com", "example.comx", "notexample.com", "example.co", "my-example.org", "test.nl", "corp.nl"}
 
 var xSchemes = []string{"https://", "https://", "https://", "http://", "HTTPS://", "Http://", "", "//", "ftp://", "grpc://", "https:", "https:/", "file://", "ws://", "wss://", "did:web:", "javascript:", "h ttps://", "1https://", "+https://"}
+
+// xClientFlags: the CLI client's loader (environment, then loadFromFlagSet — a refusal panics) on a real cobra command
+func xClientFlags(op xOp) (line string) {
+	cmd := &cobra.Command{Use: "verif"}
+	cmd.Flags().AddFlagSet(core.ClientConfigFlags())
+	for _, n := range op.Names {
+		if cmd.Flags().Lookup(n) == nil {
+			cmd.Flags().String(n, "", "a flag of the command itself")
+		}
+	}
+	var args []string
+	for _, a := range op.Args {
+		args = append(args, "--"+a)
+	}
+	if err := cmd.Flags().Parse(args); err != nil {
+		return "cflag parse-error"
+	}
+	os.Unsetenv("NUTS_TOKEN")
+	if op.EnvToken != nil {
+		os.Setenv("NUTS_TOKEN", *op.EnvToken)
+		defer os.Unsetenv("NUTS_TOKEN")
+	}
+	defer func() {
+		if r := recover(); r != nil {
+			m := fmt.Sprint(r)
+			if i := strings.Index(m, " is a secret"); i > 0 && strings.HasPrefix(m, "flag ") {
+				line = "cflag refuse:cli-secret:" + xhx(m[len("flag "):i])
+				return
+			}
+			line = "cflag panic:" + m
+		}
+	}()
+	cfg := core.NewClientConfigForCommand(cmd)
+	return "cflag ok token=" + xhx(cfg.Token)
+}
+
+// xGenClientFlags: every client flag alone, --token among flags sorting before / after it, a command's own flags whose
+// names end in token / password without a dot, token from the environment
+func xGenClientFlags(r *rand.Rand, thorough bool) []xOp {
+	var base []string
+	core.ClientConfigFlags().VisitAll(func(f *pflag.Flag) { base = append(base, f.Name) })
+	val := func(n string) string {
+		switch n {
+		case "timeout":
+			return "7s"
+		case "verbosity":
+			return "debug"
+		case "address":
+			return "localhost:8081"
+		}
+		return "v" + strconv.Itoa(len(n))
+	}
+	extras := []string{"apitoken", "xtoken", "db.password", "password", "mypassword", "tokens", "passwords", "a.token", "tokenx", "zz.token", "aa", "zy", "sessiontoken", "tokenpassword", "pass.word"}
+	mk := func(extra []string, set []string, env *string, tag string) xOp {
+		all := append(append([]string{}, base...), extra...)
+		sort.Strings(all)
+		var args []string
+		for _, n := range set {
+			args = append(args, n+"="+val(n))
+		}
+		return xOp{Op: "cflag", Names: all, Args: args, EnvToken: env, Strict: true, Tag: tag}
+	}
+	envTok := "env-secret"
+	var ops []xOp
+	ops = append(ops, mk(nil, nil, nil, "cflag-none"), mk(nil, nil, &envTok, "cflag-env"))
+	for _, n := range base {
+		ops = append(ops, mk(nil, []string{n}, nil, "cflag-single"), mk(nil, []string{n}, &envTok, "cflag-single"))
+	}
+	ops = append(ops, mk(nil, []string{"address", "token"}, nil, "cflag-combined"), mk(nil, []string{"token", "verbosity"}, nil, "cflag-combined"),
+		mk(nil, []string{"address", "token", "token-file", "verbosity"}, &envTok, "cflag-combined"), mk(nil, []string{"address", "timeout", "token-file", "verbosity"}, &envTok, "cflag-combined"))
+	for _, e := range extras {
+		ops = append(ops, mk([]string{e}, []string{e}, nil, "cflag-own-flag"), mk(extras, []string{e, "address"}, &envTok, "cflag-own-flag"))
+	}
+	n := 25
+	if thorough {
+		n = 400
+	}
+	for i := 0; i < n; i++ {
+		var extra, set []string
+		for _, e := range extras {
+			if r.Intn(3) == 0 {
+				extra = append(extra, e)
+			}
+		}
+		for _, c := range append(append([]string{}, base...), extra...) {
+			if r.Intn(4) == 0 {
+				set = append(set, c)
+			}
+		}
+		var env *string
+		if r.Intn(2) == 0 {
+			env = &envTok
+		}
+		ops = append(ops, mk(extra, set, env, "cflag-random"))
+	}
+	return ops
+}
 
 func xGenURL(r *rand.Rand) string {
 	s := xSchemes[r.Intn(len(xSchemes))] + xHosts[r.Intn(len(xHosts))]
@@ -1063,6 +1194,25 @@ func xGenerate(seed int64, thorough bool) []xOp {
 			ops = append(ops, xOp{Op: "sys", Strict: strict, URL: "https://nuts.nl", TLS: true, Methods: []string{"web", "nuts"}, Crypto: name, SQL: true, Irma: "pbdf", Tag: "crypto-names"})
 		}
 	}
+	// 9. (round 3) the connection STRING through the real storage engine, on a fresh data directory and on one that an earlier
+	// lenient run without a connection string has used (its sqlite.db is still there)
+	conns := []string{"", "sqlite:file:$DIR/explicit.sqlite?_pragma=foreign_keys(1)&journal_mode(WAL)", "sqlite:file:$DIR/sqlite.db?_pragma=foreign_keys(1)&journal_mode(WAL)",
+		"bogus:file:$DIR/x.db", "Sqlite:file:$DIR/x.db", "file:$DIR/x.db", "sqlite3:file:$DIR/x.db"}
+	for _, strict := range []bool{true, false} {
+		for _, prior := range []string{"", "lenient"} {
+			for _, conn := range conns {
+				conn := conn
+				ops = append(ops, xOp{Op: "sys", Strict: strict, URL: "https://nuts.nl", TLS: true, Methods: []string{"web", "nuts"}, Crypto: "fs", SQLConn: &conn, SQL: conn != "", Prior: prior, Irma: "pbdf", Tag: "sql-conn"})
+			}
+		}
+	}
+	for _, url := range []string{"http://nuts.nl", "https://127.0.0.1"} {
+		for _, crypto := range []string{"", "fs"} {
+			conn := ""
+			ops = append(ops, xOp{Op: "sys", Strict: true, StrictUnset: crypto == "", URL: url, TLS: true, Methods: []string{"web"}, Crypto: crypto, SQLConn: &conn, Prior: "lenient", Irma: "pbdf", Tag: "sql-conn"})
+		}
+	}
+	ops = append(ops, xGenClientFlags(r, thorough)...)
 	return ops
 }
 
